@@ -177,34 +177,54 @@ def combineMatchAndActions (cfg : Cfg) (ctx : Ctx) (action : String) (m : List C
     else
       some (rules.map (fun r => { r with clauses := r.clauses ++ m }))
 
+/-! The block-building part of `ProtoRuleToIptablesRules`, one step per `if` of the Go code; each
+step maps (builder, remaining rule) to (builder, remaining rule). -/
+
+def stepSrcPorts (cfg : Cfg) (setName : String → String) (s : MBB × Policy.Rule) : MBB × Policy.Rule :=
+  if (splitPortList s.2.srcPorts).length + s.2.srcNamedPortIpSetIds.length > 1 then
+    (s.1.appendPorts cfg setName s.2.protocol (splitPortList s.2.srcPorts) s.2.srcNamedPortIpSetIds .src,
+     { s.2 with srcPorts := [], srcNamedPortIpSetIds := [] })
+  else s
+
+def stepDstPorts (cfg : Cfg) (setName : String → String) (s : MBB × Policy.Rule) : MBB × Policy.Rule :=
+  if (splitPortList s.2.dstPorts).length + s.2.dstNamedPortIpSetIds.length > 1 then
+    (s.1.appendPorts cfg setName s.2.protocol (splitPortList s.2.dstPorts) s.2.dstNamedPortIpSetIds .dst,
+     { s.2 with dstPorts := [], dstNamedPortIpSetIds := [] })
+  else s
+
+def stepSrcNet (cfg : Cfg) (s : MBB × Policy.Rule) : MBB × Policy.Rule :=
+  if s.2.srcNet.length > 1 then (s.1.appendCIDRs cfg s.2.srcNet .src, { s.2 with srcNet := [] }) else s
+
+def stepDstNet (cfg : Cfg) (s : MBB × Policy.Rule) : MBB × Policy.Rule :=
+  if s.2.dstNet.length > 1 then (s.1.appendCIDRs cfg s.2.dstNet .dst, { s.2 with dstNet := [] }) else s
+
+def stepNegSrcNet (cfg : Cfg) (s : MBB × Policy.Rule) : MBB × Policy.Rule :=
+  if s.2.srcNet.length + s.2.notSrcNet.length > 1 then
+    (s.1.appendNegCIDRs cfg s.2.notSrcNet .src, { s.2 with notSrcNet := [] }) else s
+
+def stepNegDstNet (cfg : Cfg) (s : MBB × Policy.Rule) : MBB × Policy.Rule :=
+  if s.2.dstNet.length + s.2.notDstNet.length > 1 then
+    (s.1.appendNegCIDRs cfg s.2.notDstNet .dst, { s.2 with notDstNet := [] }) else s
+
+/-- all six block steps, in the order of the Go code -/
+def buildBlocks (cfg : Cfg) (setName : String → String) (r : Policy.Rule) : MBB × Policy.Rule :=
+  stepNegDstNet cfg (stepNegSrcNet cfg (stepDstNet cfg (stepSrcNet cfg
+    (stepDstPorts cfg setName (stepSrcPorts cfg setName ({}, r))))))
+
 /-- `ProtoRuleToIptablesRules` (without rule annotations). `none` = panic. -/
 def protoRuleToRules (cfg : Cfg) (ctx : Ctx) (setName : String → String) (v6 : Bool) (pr : Policy.Rule) :
     Option (List Netfilter.Rule) :=
   match filterRuleToIPVersion v6 pr with
   | none => some []
   | some r =>
-    let b : MBB := {}
-    let srcSplits := splitPortList r.srcPorts
-    let (b, r) := if srcSplits.length + r.srcNamedPortIpSetIds.length > 1 then
-        (b.appendPorts cfg setName r.protocol srcSplits r.srcNamedPortIpSetIds .src,
-         { r with srcPorts := [], srcNamedPortIpSetIds := [] }) else (b, r)
-    let dstSplits := splitPortList r.dstPorts
-    let (b, r) := if dstSplits.length + r.dstNamedPortIpSetIds.length > 1 then
-        (b.appendPorts cfg setName r.protocol dstSplits r.dstNamedPortIpSetIds .dst,
-         { r with dstPorts := [], dstNamedPortIpSetIds := [] }) else (b, r)
-    let (b, r) := if r.srcNet.length > 1 then (b.appendCIDRs cfg r.srcNet .src, { r with srcNet := [] }) else (b, r)
-    let (b, r) := if r.dstNet.length > 1 then (b.appendCIDRs cfg r.dstNet .dst, { r with dstNet := [] }) else (b, r)
-    let (b, r) := if r.srcNet.length + r.notSrcNet.length > 1 then
-        (b.appendNegCIDRs cfg r.notSrcNet .src, { r with notSrcNet := [] }) else (b, r)
-    let (b, r) := if r.dstNet.length + r.notDstNet.length > 1 then
-        (b.appendNegCIDRs cfg r.notDstNet .dst, { r with notDstNet := [] }) else (b, r)
-    match calculateRuleMatch setName v6 r with
+    let s := buildBlocks cfg setName r
+    match calculateRuleMatch setName v6 s.2 with
     | none => none
     | some m =>
-      let m := if b.usingBlocks then m ++ [.mark false cfg.markScratch0 cfg.markScratch0] else m
-      match combineMatchAndActions cfg ctx r.action m with
+      let m := if s.1.usingBlocks then m ++ [.mark false cfg.markScratch0 cfg.markScratch0] else m
+      match combineMatchAndActions cfg ctx s.2.action m with
       | none => none
-      | some rs => some (b.rules ++ rs)
+      | some rs => some (s.1.rules ++ rs)
 
 /-- `NameForMainIPSet`: `combineAndTrunc(prefix+"4"/"6"+"0", id, 31)`. -/
 def setNameFor (v6 : Bool) (id : String) : String :=
